@@ -157,7 +157,7 @@ META = {
                    "(linear, symbolic scalar and per-sample array) or 10^(snr/10) (dB: exact algebraic values for "
                    "-10, 0, 5, 10, 20 dB and a per-sample array; symbolic dB through an uninterpreted pow shared with "
                    "the oracle), or std verbatim when no SNR is given.",
-    "bounds": {"quick": "signals of 1..6 samples", "thorough": "signals of 1..10 samples"},
+    "bounds": {"quick": "signals of 1..6 samples; integer-typed signals (list / int64) of 4 samples with a symbolic per-sample SNR", "thorough": "signals of 1..10 samples"},
     "outside": ["seed reproducibility and the empirical SNR of long series: statistical facts about NumPy's generator, "
                 "not expressible as an SMT query (stated in DESIGN.md, not claimed)", "float rounding"],
     "assumptions": ["signal not identically zero when an SNR is given", "snr > 0 in linear scale",
